@@ -17,6 +17,8 @@
 #include <shark/Models/Clustering/SoftClusteringModel.h>
 #include <shark/Models/NearestNeighborModel.h>
 #include <shark/Models/Ensemble.h>
+#include <shark/Models/OneVersusOneClassifier.h>
+#include <boost/serialization/void_cast.hpp>
 #include <shark/Models/Kernels/LinearKernel.h>
 #include <shark/Algorithms/NearestNeighbors/SimpleNearestNeighbors.h>
 #include <shark/Algorithms/Trainers/NormalizeComponentsUnitVariance.h>
@@ -257,6 +259,47 @@ std::string c18::runModel(std::string const& label, bool binary){
 			return "params=" + vecStr(m.parameterVector()) + " eval=" + matStr(y);
 		};
 		return history(label, a, a2, b, beh, binary);
+	}
+	if(label == "BinaryRBM-baserate"){
+		// the base rate of the visible layer (reference distribution of tempered sampling; TemperedMarkovChain reads it)
+		random::rng_type rngA, rngA2, rngB; rngA.seed(1); rngA2.seed(2); rngB.seed(3);
+		BinaryRBM a(rngA), a2(rngA2), b(rngB);
+		a.setStructure(4, 3); a2.setStructure(4, 2); b.setStructure(2, 2);
+		a.setParameterVector(ramp(a.numberOfParameters(), -1, 0.125)); a2.setParameterVector(ramp(a2.numberOfParameters(), 0.5, -0.0625));
+		a.visibleNeurons().baseRate() = ramp(4, 0.25, 0.5); a2.visibleNeurons().baseRate() = ramp(4, -1, 0.25);
+		auto beh = [](BinaryRBM& m){
+			RealMatrix x = points(3, 4, 3);
+			RealVector beta(3); beta(0) = 0.5; beta(1) = 0.25; beta(2) = 1.0;
+			typename BinaryLayer::StatisticsBatch st(3, 4);
+			m.visibleNeurons().sufficientStatistics(x, st, beta);
+			return "params=" + vecStr(m.parameterVector()) + " baseRate=" + vecStr(m.visibleNeurons().baseRate()) + " tempered=" + matStr(st);
+		};
+		return history(label, a, a2, b, beh, binary);
+	}
+	if(label == "OneVersusOneClassifier"){
+		// m_binary is a vector of pointers to the abstract binary classifier type: boost needs the dynamic type and the
+		// base/derived relation registered by the USER (Shark exports nothing); with that done, does the round trip work?
+		typedef OneVersusOneClassifier<RealVector> O; typedef LinearClassifier<> BC; typedef AbstractModel<RealVector, unsigned int> Base;
+		boost::serialization::void_cast_register<BC, Base>();
+		BC c10(Shape(2), 1, true), c20(Shape(2), 1, true), c21(Shape(2), 1, false);
+		c10.setParameterVector(ramp(c10.numberOfParameters(), -1, 0.75)); c20.setParameterVector(ramp(c20.numberOfParameters(), 0.5, -0.5)); c21.setParameterVector(ramp(c21.numberOfParameters(), 2, -1.5));
+		BC d10(Shape(2), 1, true), d20(Shape(2), 1, true), d21(Shape(2), 1, false);    // the target's own binary classifiers
+		O a, b;
+		a.addClass(std::vector<Base*>{&c10}); a.addClass(std::vector<Base*>{&c20, &c21});
+		b.addClass(std::vector<Base*>{&d10}); b.addClass(std::vector<Base*>{&d20, &d21});
+		auto beh = [](O& m){ return classifierBeh(m, 2) + " classes=" + std::to_string(m.numberOfClasses()); };
+		std::string A = beh(a);
+		std::stringstream ss(std::ios::in | std::ios::out | std::ios::binary);
+		if(binary){
+			{ boost::archive::polymorphic_binary_oarchive oa(ss); OutArchive& o = oa; o.register_type<BC>(); o << a; }
+			{ boost::archive::polymorphic_binary_iarchive ia(ss); InArchive& i = ia; i.register_type<BC>(); i >> b; }
+		}else{
+			{ boost::archive::polymorphic_text_oarchive oa(ss); OutArchive& o = oa; o.register_type<BC>(); o << a; }
+			{ boost::archive::polymorphic_text_iarchive ia(ss); InArchive& i = ia; i.register_type<BC>(); i >> b; }
+		}
+		std::string B = beh(b);
+		if(A != B) return c18::differs(label, "behaviour-differs", A, B);
+		return "obj " + label + " same";
 	}
 	// ---- models produced by trainers
 	if(label == "trained-Normalizer"){
